@@ -144,9 +144,11 @@ package plugin
 //@   ensures#noerrack err == nil ==> calls("writeStanza", 7) == old(calls("writeStanza", 7))                                       [C11 C16]
 //@   ensures#nil err != nil ==> stanzas == nil && labels == nil                                                                   [C14 C16]
 //@   ensures#oneexec $execs <= old($execs) + 1                                                                                    [C17]
+//@   ensures#recvintact sameobject(r)                                                                                             [C11 C20]
 
 //@ func (*Identity).Unwrap(i, stanzas) (fileKey, err)
 //@   requires i.ui != nil && (forall j in 0..len(stanzas) :: stanzas[j] != nil)
+//@   ensures#recvintact sameobject(i)                                                                                             [C16 C20]
 //@   call openClientConnection#1 requires arg0 == i.name && arg1 == "identity-v1"                                                  [C16 C17]
 //@   call writeStanza#1 requires id(arg0) == id(conn) && arg1 == "add-identity" && len(arg2) == 1 && arg2[0] == i.encoding          [C16]
 //@   call writeStanza#2 requires id(arg0) == id(conn) && hasprefix(arg1, "grease-") && len(arg2) == 0                              [C16]
